@@ -111,6 +111,8 @@ fn replay_history(case: &J) -> Result<(), String> {
 }
 
 fn on_thread<T: Send>(hop: bool, f: impl FnOnce() -> T + Send) -> T {
+    // (in the second pass the search runs every transition while its thread unwinds: so does the replay)
+    let f = || explore::in_env(f);
     if !hop {
         return f();
     }
